@@ -3,7 +3,7 @@
 # in K parallel runners.  Each runner has its own scratch worktree of /repo (outside /repo and /verif), its own
 # copy of /verif and its own scratch directory, so /repo and /verif/evidence are never touched.
 # usage: tools/rerun_all.sh [K] [seeded|neutral|all] ["neutral4 neutral5"]     results: /var/tmp/mut/rerun/results.txt
-K=${1:-3}; WHAT=${2:-all}; BATCHES=${3:-"neutral neutral2 neutral3 neutral4 neutral5"}
+K=${1:-3}; WHAT=${2:-all}; BATCHES=${3:-"neutral neutral2 neutral3 neutral4 neutral5 neutral6"}
 OUT=/var/tmp/mut/rerun; rm -rf $OUT; mkdir -p $OUT
 JOBS=$OUT/jobs.txt; : > $JOBS
 if [ "$WHAT" != neutral ]; then
